@@ -210,10 +210,16 @@ def allocatedFor (i : GSliceInput) (c p : Nat) : Bool :=
   | some pin => (allocatedPeers i.members pin).contains p
   | none => false
 
+/-- a member that answered appears with its own report for the CID: one of
+the statuses it reported for that CID (a reply may list a CID more than once),
+and does not appear when it reported none -/
 def gsOwnReport (i : GSliceInput) (c : Nat) (m : List (Nat × Nat)) : Bool :=
   i.members.all (fun p =>
     match replyOf i.replies p with
-    | .ok l => lookup m p == lookup l c
+    | .ok l =>
+      match lookup m p with
+      | some st => l.any (fun e => e.1 == c && e.2 == st)
+      | none => !(l.any (fun e => e.1 == c))
     | _ => true)
 
 def gsAllocated (i : GSliceInput) (c : Nat) (m : List (Nat × Nat)) : Bool :=
@@ -243,5 +249,195 @@ def gsClauses (i : GSliceInput) (o : List (Nat × List (Nat × Nat))) : List (St
         | _ => true)) ]
 
 def gsHolds (i : GSliceInput) (o : List (Nat × List (Nat × Nat))) : Bool := (gsClauses i o).all (·.2)
+
+/-! ## Round 7 — the same statement when resources fail and for any daemon answer
+
+Facts of a `tf` case: which calls fail, and per CID what the connector answers.
+Reading used:
+
+* a view that lost a resource it needs must say so — `Status` with
+  cluster_error, the listing (which has no error return) by being empty — and
+  must never make a status up: nothing is `pinned` unless the daemon's answer to
+  the query of that view said so;
+* the two views agree, or both give an error status, or the disagreement is
+  explained by a fault of the case and the affected view reports it as above;
+* a non-empty listing is complete (no partial listing passed off as a listing);
+* the filter law: each listing is the filter-0 listing restricted, unless a
+  fault emptied one of the two;
+* agreement / truth / the filter law are read for a daemon whose answers are
+  those of some IPFS pin set (`coherent`: go-ipfs honouring `type=`); the
+  `pinned`-needs-confirmation, fault-reporting, well-formedness and PinInfo
+  clauses for every answer.
+-/
+
+structure OutputF where
+  each : List (Nat × Nat)
+  eachInfo : List (Nat × Nat)                 -- (cid, bits) of the PinInfo of Status(cid)
+  lists : List (Nat × List (Nat × Nat))
+  listInfo : List (Nat × Nat)                 -- (cid, bits) of the entries of StatusAll(0)
+  deriving Repr
+
+/-- bits of a PinInfo observation: 1 Cid is the CID asked for / listed once,
+2 Peer is this peer, 4 PeerName is this peer's name, 8 Error text non-empty,
+16 TS set and not earlier than in the previous read of the same view -/
+def infoOk (st bits : Nat) : Bool :=
+  bits % 8 == 7 && (bits / 16) % 2 == 1 && (((bits / 8) % 2 == 1) == isErr st)
+
+def pinnedType (s : IpfsStatus) : Bool := s == .direct || s == .recursive
+
+/-- the IPFS pin set (if any) the answers about this CID come from -/
+def FRec.coherentHeld (r : FRec) : Option Ipfs :=
+  [Ipfs.unpinned, .direct, .recursive, .indirect].find? (fun h => r.ans == wellBehaved r.pin h)
+
+def FRec.toRec (r : FRec) (h : Ipfs) : Rec := { cid := r.cid, pin := r.pin, ipfs := h, op := r.op }
+
+def FRec.expectedHere (r : FRec) (self : Nat) : Bool :=
+  match r.pin with | some p => !p.isMeta && p.here self | none => false
+
+def FRec.modeAns (r : FRec) : Option IpfsStatus :=
+  match r.pin with | some p => if p.depth == 0 then r.ans.lsD else r.ans.lsR | none => none
+
+def FRec.hasOpEntry (r : FRec) : Bool :=
+  match r.op with | some o => o.phase != .done | none => false
+
+def anyListFault (i : FInput) : Bool := i.stateErr || i.listErr || i.lsDErr || i.lsRErr
+def sFault (i : FInput) (r : FRec) : Bool := i.stateErr || r.getErr || r.lsCidErr
+
+def list0F (o : OutputF) : List (Nat × Nat) :=
+  match o.lists.find? (fun e => e.1 == 0) with
+  | some e => e.2
+  | none => []
+
+def viewSF (o : OutputF) (r : FRec) : Nat := (lookup o.each r.cid).getD stUndefined
+def viewLF (o : OutputF) (r : FRec) : Nat := (lookup (list0F o) r.cid).getD stUnpinned
+
+def agreeF (i : FInput) (o : OutputF) (r : FRec) : Bool :=
+  r.coherentHeld.isNone ||
+  viewSF o r == viewLF o r || (isErr (viewSF o r) && isErr (viewLF o r)) ||
+  (anyListFault i && (list0F o).isEmpty) || (sFault i r && viewSF o r == stClusterError)
+
+/-- strict agreement wherever no fault of the case touches the CID -/
+def agreeStrictF (i : FInput) (o : OutputF) (r : FRec) : Bool :=
+  r.coherentHeld.isNone || anyListFault i || sFault i r || viewSF o r == viewLF o r
+
+def truthPinnedS (i : FInput) (o : OutputF) (r : FRec) : Bool :=
+  viewSF o r != stPinned ||
+    (r.expectedHere i.self && !i.stateErr && !r.getErr && !r.lsCidErr && pinnedType r.ans.lsCid)
+
+def truthPinnedL (i : FInput) (l : List (Nat × Nat)) (r : FRec) : Bool :=
+  lookup l r.cid != some stPinned ||
+    (r.expectedHere i.self && !i.stateErr && !i.listErr &&
+     !(match r.pin with | some p => if p.depth == 0 then i.lsDErr else i.lsRErr | none => true) &&
+     (match r.modeAns with | some s => pinnedType s | none => false))
+
+def faultReported (i : FInput) (o : OutputF) (r : FRec) : Bool :=
+  r.hasOpEntry ||
+  ((!(i.stateErr || r.getErr) || viewSF o r == stClusterError) &&
+   (!(r.expectedHere i.self && r.lsCidErr) || viewSF o r == stClusterError))
+
+/-- a non-empty listing has every CID whose per-CID status is a definite
+(non-error, not unpinned) status of the filter -/
+def completeF (i : FInput) (o : OutputF) (e : Nat × List (Nat × Nat)) : Bool :=
+  e.2.isEmpty || i.recs.all (fun r =>
+    r.coherentHeld.isNone || sFault i r || viewSF o r == stUnpinned || viewSF o r == stUndefined || isErr (viewSF o r) ||
+    !inFilter (viewSF o r) e.1 || lookup e.2 r.cid == some (viewSF o r))
+
+def saneListing (r : FRec) : Bool :=
+  (match r.ans.lsD with | some s => pinnedType s | none => true) &&
+  (match r.ans.lsR with | some s => pinnedType s | none => true)
+
+def filterLawF (i : FInput) (o : OutputF) (e : Nat × List (Nat × Nat)) : Bool :=
+  e.2 == (list0F o).filter (fun x => inFilter x.2 e.1) ||
+  (anyListFault i && (e.2.isEmpty || (list0F o).isEmpty))
+
+def listingWfF (i : FInput) : List (Nat × Nat) → Bool
+  | [] => true
+  | [a] => i.recs.any (fun r => r.cid == a.1)
+  | a :: b :: t => i.recs.any (fun r => r.cid == a.1) && decide (a.1 < b.1) && listingWfF i (b :: t)
+
+/-- the truth clauses of the fault-free statement, on the CIDs and views no
+fault of the case touches -/
+def truthF (i : FInput) (o : OutputF) (r : FRec) : Bool :=
+  match r.coherentHeld with
+  | none => true
+  | some h =>
+    let i0 : Input := { self := i.self, ipfsUp := true, recs := [] }
+    let r0 := r.toRec h
+    let all (v : Nat) : Bool :=
+      okPinned i0 r0 v && okRemote i0 r0 v && okSharded i0 r0 v && okUnpinned i0 r0 v && okError i0 r0 v && okPending i0 r0 v
+    !r0.consistent i.self ||
+      ((sFault i r || all (viewSF o r)) && (anyListFault i || all (viewLF o r)))
+
+def knownF (r : FRec) (v : Nat) : Bool :=
+  okKnown v || (v == stUndefined && (r.ans.lsD == some .bug || r.ans.lsR == some .bug || r.ans.lsCid == .bug))
+
+def clausesF (i : FInput) (o : OutputF) : List (String × Bool) :=
+  [ ("fa_views_agree", i.recs.all (agreeF i o)),
+    ("fa_views_agree_strict", i.recs.all (agreeStrictF i o)),
+    ("fa_truth_pinned", i.recs.all (fun r => truthPinnedS i o r && o.lists.all (fun e => truthPinnedL i e.2 r))),
+    ("fa_fault_reported", i.recs.all (faultReported i o)),
+    ("fa_no_partial_listing", o.lists.all (completeF i o)),
+    ("fa_filter_law", !(i.recs.all saneListing) || o.lists.all (filterLawF i o)),
+    ("fa_truth", i.recs.all (truthF i o)),
+    ("fa_known_status", i.recs.all (fun r => knownF r (viewSF o r) && knownF r (viewLF o r))),
+    ("fa_listing_wf", o.lists.all (fun e => listingWfF i e.2)),
+    ("info_ok", o.eachInfo.all (fun e => infoOk ((lookup o.each e.1).getD 0) e.2) &&
+                o.listInfo.all (fun e => infoOk ((lookup (list0F o) e.1).getD 0) e.2) &&
+                o.eachInfo.map (·.1) == o.each.map (·.1) && o.listInfo.map (·.1) == (list0F o).map (·.1)) ]
+
+def holdsF (i : FInput) (o : OutputF) : Bool := (clausesF i o).all (·.2)
+
+/-! ### Recover answers against the status views read right after
+
+`R` = what `Recover(cid)` answered, `S` = `Status(cid)` right after; for
+`RecoverAll`: its answers and `StatusAll(0)` right after. They must be the same
+status, except that a queued operation may have been picked up by a worker in
+between; an item that was in a recoverable error must not be answered with
+that error again. -/
+
+def progressed (a b : Nat) : Bool :=
+  a == b || (a == stPinQueued && b == stPinning) || (a == stUnpinQueued && b == stUnpinning)
+
+structure OutputR where
+  before : List (Nat × Nat)     -- Status(cid) before (mode e) / StatusAll(0) before (mode a)
+  answer : List (Nat × Nat)     -- Recover(cid) for every CID / RecoverAll()
+  after : List (Nat × Nat)      -- Status(cid) after each Recover / StatusAll(0) after RecoverAll
+  errText : List (Nat × Nat)    -- (cid, 1 if the answer's Error text is non-empty else 0)
+  deriving Repr
+
+def recoverable (s : Nat) : Bool := s == stPinError || s == stUnpinError || s == stUnexpectedlyUnpinned
+
+def clausesR (o : OutputR) : List (String × Bool) :=
+  [ ("rc_answer_is_status", o.answer.all (fun e => match lookup o.after e.1 with
+        | some s => progressed e.2 s
+        | none => e.2 == stUnpinned)),
+    ("rc_same_cids", o.answer.map (·.1) == o.before.map (·.1)),
+    ("rc_error_retried", o.answer.all (fun e => match lookup o.before e.1 with
+        | some s0 => if recoverable s0 then !recoverable e.2 && !(e.2 == s0) else progressed s0 e.2
+        | none => false)),
+    ("rc_error_text", o.answer.all (fun e => (lookup o.errText e.1 == some 1) == isErr e.2)) ]
+
+def holdsR (o : OutputR) : Bool := (clausesR o).all (·.2)
+
+/-! ### cluster-wide views under faults -/
+
+/-- `Cluster.Status` when the state or `consensus.Peers` fail: an error, never
+a partial map; otherwise the fault-free clauses (a member whose call failed is
+cluster_error: `g_allocated`). -/
+def gcClausesF (i : GCidF) (o : Option (List (Nat × Nat))) : List (String × Bool) :=
+  let mustErr := i.stateErr || (!i.base.follower && i.peersErr)
+  match o with
+  | none => [("g_error_only_on_fault", mustErr)]
+  | some m => ("g_fault_is_error", !mustErr) :: gcClauses i.base m
+
+def gsFailedMarked (i : GSliceInput) (m : List (Nat × Nat)) : Bool :=
+  (erroredMembers i).all (fun p => lookup m p == some stClusterError)
+
+def gsClausesF (i : GSliceF) (o : Option (List (Nat × List (Nat × Nat)))) : List (String × Bool) :=
+  let mustErr := !i.base.follower && i.peersErr
+  match o with
+  | none => [("g_error_only_on_fault", mustErr)]
+  | some m => ("g_fault_is_error", !mustErr) ::
+      ("g_failed_member_marked", m.all (fun e => gsFailedMarked i.base e.2)) :: gsClauses i.base m
 
 end CV.C06
